@@ -296,9 +296,22 @@ func (w *SimWriter) Write(p []byte) (int, error) {
 		panic(writerCallsExceeded{})
 	}
 	if e, ok := w.plan[idx]; ok && e.Nil && len(p) > 0 {
+		// accepts fewer bytes than offered and returns a nil error
+		n := e.Accept
+		if n >= len(p) {
+			n = len(p) - 1
+		}
+		if n < 0 {
+			n = 0
+		}
+		w.sink = append(w.sink, p[:n]...)
 		w.nilAns++
-		w.fire("writer_zero_nil")
-		return 0, nil
+		if n == 0 {
+			w.fire("writer_zero_nil")
+		} else {
+			w.fire("writer_short_nil")
+		}
+		return n, nil
 	}
 	if e, ok := w.plan[idx]; ok {
 		n := e.Accept
